@@ -37,12 +37,16 @@ contract(MD, "Dataset.__init__", props=["C20", "C08"],
 
 contract(MD, "Dataset.create", props=["C08", "C20", "C06"],
     params={"path": "U", "metadata": "ref:Metadata", "dataset_structure": "ref:DatasetStructure"},
+    # base case of the session induction: whatever list documents already lie under the
+    # directory are valid (vacuous for a new directory); kept by creation
+    requires=["DISK_OK(path)"],
     returns="ref:Dataset", modifies=["DatasetBase.path", "DatasetBase._dataset_info", "DatasetInfo.metadata",
                                      "DatasetInfo.dataset_structure", "DatasetInfo.splits", "ghost:fs"],
     ensures=[
         "fresh(result) and result.path == path",
         ("C08", "old(dstate(PJOIN(path, 'dataset_info.json'))) != 2"),     # only where no dataset exists
         ("C20", "result._dataset_info.metadata is metadata and result._dataset_info.dataset_structure is dataset_structure"),
+        (["C04", "C20"], "DISK_OK(path) and dstate(PJOIN(path, 'dataset_info.json')) == 2"),
     ],
     raises={
         # C08: refused when a dataset already exists, and then NOTHING on disk was touched
